@@ -57,7 +57,9 @@ class Gen:
         return s
 
     def atom(self, name):
+        from .values import UUID_RANGE
         a = self._new(name, 'atom')
+        self.ctx.assume(a.t > UUID_RANGE)       # never one of the identifiers the program generates itself (uuid4)
         self.ctx.atoms.append(a)
         return a
 
@@ -331,6 +333,8 @@ def deep_eq(a, b, path='', memo=None):
         if a == b or math.isclose(a, b, rel_tol=1e-9, abs_tol=1e-12):
             return ''
         return f'{path}: {a!r} vs {b!r}'
+    if isinstance(a, str) and (a.startswith('@uuid') or b.startswith('@uuid')):
+        return ''          # generated identifiers: any string
     if a is None or isinstance(a, (bool, int, str)):
         return '' if a == b else f'{path}: {a!r:.80} vs {b!r:.80}'
     if (id(a), id(b)) in memo:
